@@ -650,7 +650,7 @@ func init() {
 		},
 		Real:        []string{"pac.ProxyResolverPool / ProxyResolver (goja VM, ascii_pac_utils.js helpers, Go helpers dnsResolve/isInNetEx/dnsResolveEx), pac.Proxies result parsing", "Go's pure DNS stub resolver (net.Resolver{PreferGo:true}) speaking DNS wire format to the simulated server"},
 		Stub:        append([]string{"DNS server -> scripted node answering from a generated zone with latency, NXDOMAIN, SERVFAIL or silence"}, stubCommon...),
-		Rule:        "decision-tree scripts over isPlainHostName, dnsDomainIs, localHostOrDomainIs, dnsDomainLevels, shExpMatch, isInNet, isResolvable, isInNetEx/dnsResolveEx with literal arguments (dotted masks, CIDRs, globs of literals '.', '*', '?'); per-host failures (throw, non-string, non-ASCII, null); 2-16 evaluations issued concurrently through the pool, each blocking in DNS lookups that the scheduler interleaves, after failing evaluations have gone through the pool; then the same calls one at a time on a fresh pool. Oracle: concurrent == sequential == independent Go reference evaluation against the same zone; result lists parse into the expected number of entries.",
+		Rule:        "decision-tree scripts over isPlainHostName, dnsDomainIs, localHostOrDomainIs, dnsDomainLevels, shExpMatch, isInNet, isResolvable, isInNetEx/dnsResolveEx with literal arguments (dotted masks, CIDRs, globs of literals '.', '*', '?'); per-host failures (throw, non-string, non-ASCII, null); 2-16 evaluations issued concurrently through the pool, each blocking in DNS lookups that the scheduler interleaves, after failing evaluations have gone through the pool; then the same calls one at a time on a fresh pool. Oracle: concurrent == sequential == independent Go reference evaluation against the same zone; result lists parse into the expected number of entries. Later additions: evaluations naming the host separately from the URL, isInNet patterns with bits outside the mask, IPv6 literal hosts, DNS answers that change after a failed evaluation.",
 		Assumptions: []string{"helper arguments stay inside the domain on which the Netscape text and the Mozilla/Chromium implementations agree", "a name's DNS behaviour (answer, NXDOMAIN, SERVFAIL, silence) is fixed per run, so a lookup fails in every phase or in none"},
 	})
 }
